@@ -232,6 +232,32 @@ CHECKS = {
              "session states. Found and repaired with it: avg-orderby-type-assert; failed-use-nil-service (with C17).",
         technique="TLA+-enumerated statement space (StmtGen.tla over SqlSem/SqlSemGen vocabulary) executed through engine.Session with a crash/hang postcondition",
     ),
+    "C09": dict(
+        category="exploration",
+        text="SqlGrammar.tla gives the input space as a grammar machine (Pick / EmitNext / Skip / Finish / JunkInsert / JunkSubst): every "
+             "reachable state is a truncation of a valid statement, junk steps insert or substitute any token of the full scanner vocabulary "
+             "(75 token kinds, 22 lexical classes: integers beyond 64 bits, hex/underscore/float literals, lone and unterminated quotes of each "
+             "kind, NUL, invalid UTF-8, comment openers); plus all token sequences up to length 2 (quick) / 3 (thorough) and seeded random byte "
+             "strings. Each input goes through NewTokenScanner+Parser.Parse exactly as engine.parseSQL does, under recover(), a 2 s watchdog and "
+             "an allocation meter. Postcondition from the specification: a statement or an error value.",
+        design_ref="DESIGN.md 6 (C09)",
+        note="Trusted: TLC, Json, the token renderer. Bounded: 16 cover statements, <=1 junk token over the full vocabulary (quick), <=2 over a "
+             "32-token vocabulary (thorough), sequences <=2/3. Memory is measured, not modelled.",
+        technique="TLA+ grammar machine (SqlGrammar.tla) enumerated by TLC; behaviour replay on the real scanner+parser with a crash/hang/memory postcondition",
+    ),
+    "C10": dict(
+        category="exploration",
+        text="SqlGrammar.tla defines the abstract statement syntax and Toks(ast, form), the grammar read left to right; TLC enumerates every "
+             "statement of a bounded universe (31 slices: select items, joins, boolean trees of up to 3 leaves in every shape text can express, "
+             "GROUP BY/ORDER BY lists, LIMIT/OFFSET, INSERT rows x values, SET lists, column definitions, CREATE/USE/SHOW) with its token "
+             "sequence; the harness spells each in up to 38 renderings (optional INNER/AS/ASC, terminator, keyword case, white space, both "
+             "GROUP BY list forms), parses as engine.parseSQL does and maps the Go AST field by field to the specification's shape; equality "
+             "is required, list lengths included. Statements followed by a token that can never continue one must not parse.",
+        design_ref="DESIGN.md 6 (C10)",
+        note="Trusted: TLC, Json, renderer, AST converter. Bounded-exhaustive per clause, not the full product; statements the parser refuses by "
+             "design (validateGroupByFields) are excluded by SqlGrammar!GroupOK.",
+        technique="TLA+ grammar (SqlGrammar.tla Toks) plus bounded statement universe enumerated by TLC; replay on the real parser with structural AST comparison",
+    ),
 }
 
 NOT_YET = "check not built yet (build in progress; see DESIGN.md section 6)"
